@@ -12,7 +12,7 @@ LEVEL_TEXT = ("Bounded verification by symbolic execution: (R) for each class sh
               "verdicts and equal overhangs/targets/placeholders up to case; (W) the real assembly code is run on stub modules "
               "whose overhang letters carry symbolic case bits and on their all-upper-case spelling, and z3 shows the same "
               "outcome class, the same product up to case and the same stalled overhang up to case.  Bounded claim.")
-LEVEL_NOTE = ("Bounds: R: n = F+1 for one class per pattern shape + 6 geometries (quick), n in [F,F+2] all patterns (thorough); "
+LEVEL_NOTE = ("Bounds: R: n = F+1 for one class per pattern shape with F<=40 + 5 geometries (quick), n in [F,F+2] all patterns (thorough); "
               "W: m<=3 modules quick / m<=4 thorough, 2-nt overhangs, every per-letter case assignment. Trusted: z3, CPython, "
               "symx models.")
 TECHNIQUE = "bounded symbolic execution of the real Python source (symx) with z3; metamorphic relation over symbolic per-letter case bits; replay on the real stack"
@@ -120,7 +120,7 @@ def obligations(tier, seed):
         for s in slack:
             n = F + s
             if tier == "quick" and F > 40:
-                n = F  # the largest structures are decided at their minimal length in the quick tier
+                continue  # the largest structures (EcoFlex/MoClo cassette vectors, BtgZI) are left to the thorough tier
             obs.append(Ob("typing %s n=%d" % (label, n), ob_typing, dict(params, n=n), samples=3, cost=n ** 3,
                           group="typing " + label))
     for m in range(1, tier_pick(tier, 3, 4) + 1):
